@@ -1,6 +1,7 @@
 """C24 — installed-package CONTENTS files round-trip (structural clauses)."""
 import ast
 
+from ..core import generic as G
 from ..core import astutil as A
 from ..core import atomic
 from ..core import match as M
@@ -185,6 +186,10 @@ def run(ctx):
                   f"_get_fd(write=True) returns the data_source's file object `{name}` only rewound, not truncated ({g4.fmt_path(path, gf.relpath) if path else ''}): "
                   f"when the new CONTENTS is shorter than the old one the tail of the old text survives and stale or torn entries are read back", node=st)
     ctx.floor("R4", 2)
+
+    # ---- R5 flush always rewrites the file -----------------------------------------------------------------------------
+    G.always_reaches(ctx, "R5", MOD, "ContentsFile.flush", lambda c: A.unparse(c.func) == "self._write", "the rewrite of CONTENTS (`self._write()`)", "flush-always-writes")
+    ctx.floor("R5", 2)
 
 
 MUTANTS = [
